@@ -164,7 +164,9 @@ Fixpoint glob_match (p s : name) {struct p} : bool :=
 Definition glob_matcher (p : name) : option (name -> bool) := Some (glob_match p).
 
 (* ---------- state ---------- *)
-Record event := mkEv { e_org : N; e_tab : name; e_rot : bool; e_id : N }.
+(* e_seg: number of the segment the event was written to; (e_org, e_tab, e_seg) identifies a segment
+   (one segstore per (org, table); a new segment starts after every rotation) *)
+Record event := mkEv { e_org : N; e_tab : name; e_rot : bool; e_id : N; e_seg : N }.
 
 Record state := mkSt {
   ftabs : list (N * name);          (* lines of virtualtablenames[-org].txt *)
@@ -174,10 +176,11 @@ Record state := mkSt {
   amem  : list (N * name * name);   (* (org, alias, index): aliasToIndexNames[org][alias][index] *)
   akeys : list (N * name);          (* (org, alias): alias present in aliasToIndexNames[org], possibly with an empty set *)
   evs   : list event;               (* searchable events: flushed (open segment) or rotated *)
-  ghost : list (N * name)           (* unrotated-segment infos left in memory after their files were deleted *)
+  ghost : list (N * name);          (* unrotated-segment infos left in memory after their files were deleted *)
+  segno : N                         (* rotation epoch: open segments carry this number *)
 }.
 
-Definition init : state := mkSt [] [] [] [] [] [] [] [].
+Definition init : state := mkSt [] [] [] [] [] [] [] [] 0.
 
 Definition pair_is (X : N) (n : name) (p : N * name) : bool := (fst p =? X) && name_eqb (snd p) n.
 Definition has_tab (l : list (N * name)) (X : N) (n : name) : bool := existsb (pair_is X n) l.
@@ -271,7 +274,7 @@ Inductive out :=
 
 Definition add_tab (s : state) (X : N) (t : name) : state :=
   if has_tab (mtabs s) X t then s
-  else mkSt (ftabs s ++ [(X, t)]) (mtabs s ++ [(X, t)]) (adirs s) (afile s) (amem s) (akeys s) (evs s) (ghost s).
+  else mkSt (ftabs s ++ [(X, t)]) (mtabs s ++ [(X, t)]) (adirs s) (afile s) (amem s) (akeys s) (evs s) (ghost s) (segno s).
 
 (* IsAlias: some index of a non-empty alias entry; the harness only ingests through aliases with one target *)
 Definition resolve (s : state) (X : N) (n : name) : name :=
@@ -289,14 +292,14 @@ Definition add_alias (s : state) (X : N) (idx al : name) : state :=
   else
     let cur := file_keys s X idx ++ [al] in
     let '(am, ak) := fold_left (put_alias X idx) cur (amem s, akeys s) in
-    mkSt (ftabs s) (mtabs s) (adirs s) (afile s ++ [(X, idx, al)]) am ak (evs s) (ghost s).
+    mkSt (ftabs s) (mtabs s) (adirs s) (afile s ++ [(X, idx, al)]) am ak (evs s) (ghost s) (segno s).
 
 Definition rem_alias (s : state) (X : N) (idx al : name) : state :=
   if is_empty idx then s
   else mkSt (ftabs s) (mtabs s) (adirs s)
             (filter (fun t => negb (trip_is X idx al t)) (afile s))
             (filter (fun t => negb (trip_is X al idx t)) (amem s))
-            (akeys s) (evs s) (ghost s).
+            (akeys s) (evs s) (ghost s) (segno s).
 
 Definition sel_tab (names : list name) (X : N) (e : event) : bool :=
   (e_org e =? X) && mem (e_tab e) names.
@@ -312,6 +315,51 @@ Definition q_pairs (s : state) (X : N) (expr : name) : list (N * name) :=
 Definition q_list (s : state) (X : N) : list name :=
   filter (fun n => negb (is_empty n) && negb (name_eqb n [c_star])) (expand s X false [c_star]).
 
+(* ---- what delete-index does to the stored segments of table n, requested by org X ----
+   metadata.DeleteVirtualTable -> allSegmentMetadata.deleteTable(table, orgid):
+     allSegKeysInTable := keys of the segments of tableSortedMetadata[table] with OrgId = orgid   [seg_keys]
+     for every collected key: deleteSegmentKeyWithLock(key)                                       [del_seg, fold]
+     delete(tableSortedMetadata, table)   -- the table entry of EVERY org                         [meta_delete_table]
+   DeleteVirtualTableSegStore(table): the open segments of the table, of every org                 [del_evs]
+   (removeSegmetas / RemoveAll delete the files of the same segments; an event without files is not searchable) *)
+Definition in_seg_tab (X : N) (n : name) (e : event) : bool :=
+  e_rot e && (e_org e =? X) && name_eqb (e_tab e) n.
+
+(* one key per stored event of the segment: the code's map holds each key once, deleting a key a second
+   time is a no-op there (key not found) and here (nothing left to filter) *)
+Definition seg_keys (X : N) (n : name) (l : list event) : list N :=
+  map e_seg (filter (in_seg_tab X n) l).
+
+Definition del_seg (X : N) (n : name) (l : list event) (k : N) : list event :=
+  filter (fun e => negb (in_seg_tab X n e && (e_seg e =? k))) l.
+
+Definition meta_delete_table (X : N) (n : name) (l : list event) : list event :=
+  filter (fun e => negb (e_rot e && name_eqb (e_tab e) n))
+         (fold_left (del_seg X n) (seg_keys X n l) l).
+
+Definition del_evs (X : N) (n : name) (l : list event) : list event :=
+  filter (fun e => negb (negb (e_rot e) && name_eqb (e_tab e) n)) (meta_delete_table X n l).
+
+(* documentation of a seeded regression (seeded/C13b): deleting while ranging over the very slice that
+   deleteSegmentKeyWithLock shifts.  [arr] is the backing array (fixed length, stale tail), [live] the keys
+   still in the metadata; position i is read from the shifted array. *)
+Fixpoint remove_first (k : N) (l : list N) : list N :=
+  match l with [] => [] | x :: r => if x =? k then r else x :: remove_first k r end.
+Fixpoint range_delete_shifting (fuel i : nat) (arr live : list N) : list N :=
+  match fuel with
+  | O => live
+  | S f =>
+    match nth_error arr i with
+    | None => live
+    | Some k =>
+      if existsb (N.eqb k) live
+      then range_delete_shifting f (S i) (remove_first k arr ++ [last arr 0]) (remove_first k live)
+      else range_delete_shifting f (S i) arr live
+    end
+  end.
+Definition shifting_survivors (keys : list N) : list N :=
+  range_delete_shifting (length keys) 0 keys keys.
+
 (* one iteration of the loop in deleteIndex *)
 Definition del_one (X : N) (acc : state * nat) (n : name) : state * nat :=
   let '(s, nf) := acc in
@@ -321,9 +369,10 @@ Definition del_one (X : N) (acc : state * nat) (n : name) : state * nat :=
               | _ :: _ => fold_left (fun st a => rem_alias st X n a) (file_keys s X n) s
               end in
     (mkSt (filter (fun p => negb (pair_is X n p)) (ftabs s1)) (mtabs s1) (adirs s1) (afile s1) (amem s1) (akeys s1)
-          (filter (fun e => negb (name_eqb (e_tab e) n)) (evs s1))
+          (del_evs X n (evs s1))
           (ghost s1 ++ map (fun e => (e_org e, e_tab e))
-                           (filter (fun e => name_eqb (e_tab e) n && negb (e_rot e)) (evs s1))),
+                           (filter (fun e => name_eqb (e_tab e) n && negb (e_rot e)) (evs s1)))
+          (segno s1),
      nf)
   else (s, S nf).
 
@@ -334,7 +383,7 @@ Definition do_delete (s : state) (X : N) (expr : name) : state * N :=
     let '(s', nf) := fold_left (del_one X) names (s, O) in
     (s', if Nat.eqb nf (length names) then 404 else 200).
 
-Definition set_rot (e : event) : event := mkEv (e_org e) (e_tab e) true (e_id e).
+Definition set_rot (e : event) : event := mkEv (e_org e) (e_tab e) true (e_id e) (e_seg e).
 
 (* FlushAliasMapToFile: aliases/[org/]<alias>.json := the alias' index set *)
 Definition flush_one (s : state) (fl : list (N * name * name)) (k : N * name) : list (N * name * name) :=
@@ -353,7 +402,7 @@ Definition do_restart (s : state) : state :=
   mkSt (ftabs s) (filter (fun p => fst p =? 0) (ftabs s)) (adirs s) fl
        (map (fun t => (fst (fst t), snd t, snd (fst t))) ld)
        (map (fun t => (fst (fst t), snd t)) ld)
-       (map set_rot (evs s)) [].
+       (map set_rot (evs s)) [] (segno s + 1).
 
 Definition step (s : state) (o : op) : state * out :=
   match o with
@@ -365,10 +414,10 @@ Definition step (s : state) (o : op) : state * out :=
       let t := resolve s X n in
       let s1 := add_tab s X t in
       (mkSt (ftabs s1) (mtabs s1) (adirs s1) (afile s1) (amem s1) (akeys s1)
-            (evs s1 ++ map (fun i => mkEv X t false i) ids) (ghost s1), ONone)
+            (evs s1 ++ map (fun i => mkEv X t false i (segno s1)) ids) (ghost s1) (segno s1), ONone)
     end
-  | Rotate => (mkSt (ftabs s) (mtabs s) (adirs s) (afile s) (amem s) (akeys s) (map set_rot (evs s)) (ghost s), ONone)
-  | MkAliasDir X => (mkSt (ftabs s) (mtabs s) (adirs s ++ [X]) (afile s) (amem s) (akeys s) (evs s) (ghost s), ONone)
+  | Rotate => (mkSt (ftabs s) (mtabs s) (adirs s) (afile s) (amem s) (akeys s) (map set_rot (evs s)) (ghost s) (segno s + 1), ONone)
+  | MkAliasDir X => (mkSt (ftabs s) (mtabs s) (adirs s ++ [X]) (afile s) (amem s) (akeys s) (evs s) (ghost s) (segno s), ONone)
   | AddAlias X idx al => (add_alias s X idx al, ONone)
   | RemAlias X idx al => (rem_alias s X idx al, ONone)
   | Delete X expr => let '(s', c) := do_delete s X expr in (s', OCode c)
